@@ -1,21 +1,28 @@
 pub mod c01;
 pub mod c02;
 pub mod c03;
+pub mod c04;
 pub mod c05;
 pub mod c07;
+pub mod c08;
 pub mod c11;
 pub mod c12;
+pub mod c13;
+pub mod printing;
 
 use crate::framework::Ctx;
 use serde_json::Value as J;
 
-pub const ALL: &[&str] = &["C01", "C02", "C03", "C05", "C07", "C11", "C12"];
+pub const ALL: &[&str] = &["C01", "C02", "C03", "C04", "C05", "C07", "C08", "C11", "C12", "C13"];
 
 pub fn run(ctx: &mut Ctx) {
 	match ctx.prop {
 		"C01" => c01::run(ctx),
 		"C02" => c02::run(ctx),
 		"C03" => c03::run(ctx),
+		"C04" => c04::run(ctx),
+		"C08" => c08::run(ctx),
+		"C13" => c13::run(ctx),
 		"C05" => c05::run(ctx),
 		"C07" => c07::run(ctx),
 		"C11" => c11::run(ctx),
@@ -29,6 +36,9 @@ pub fn replay(prop: &str, family: &str, case: &J) -> Result<(), String> {
 		"C01" => c01::replay(family, case),
 		"C02" => c02::replay(family, case),
 		"C03" => c03::replay(family, case),
+		"C04" => c04::replay(family, case),
+		"C08" => c08::replay(family, case),
+		"C13" => c13::replay(family, case),
 		"C05" => c05::replay(family, case),
 		"C07" => c07::replay(family, case),
 		"C11" => c11::replay(family, case),
